@@ -14,7 +14,9 @@ EXPLANATION = (
     'contain no unwrap/expect/panic!/indexing except lock-poisoning unwraps, so a late response cannot panic; R06.e both abort handles '
     'store `true` with at least Release ordering into the flag the executor reads; R06.f a hosted command reports the end of its stream exactly '
     'when is_done holds (tasks, effects, events empty), so an aborted command — whose tasks R06.b clears — is seen as finished by its host at every '
-    'nesting level. Containment and finality at every injection point '
+    'nesting level; R06.g a combinator returns a fresh command hosting its operands, never one of the operands — an operand\'s abort flag is '
+    'shared with the handles taken from it, so as host it would govern its siblings (Command::and does this today: known finding C06-F2). '
+    'Containment and finality at every injection point '
     'are not decided.')
 
 ATOMIC_LOAD = ['core::sync::atomic::Atomic::load', 'core::sync::atomic::AtomicBool::load']
